@@ -12,11 +12,19 @@ An edit is a JSON-able dict; generation only looks at the *meta* of the generate
 import random
 
 
+class Inapplicable(Exception):
+    """the edit names an object that this problem does not have (a shrunk text): not a verdict"""
+
+
+KINDS = ["cell_number", "surface_number", "material_number", "transform_number",
+         "surface_constant", "density", "importance", "volume", "title", "fraction",
+         "tr_displacement", "universe_number", "material_assign",
+         "cell_universe", "fill_universe", "lattice", "boundary", "thermal_law", "tr_degrees"]
+
+
 def gen_program(rng, meta, n=None, kinds=None):
-    n = n if n is not None else rng.choice([1, 1, 2, 3, 5, 8])
-    kinds = kinds or ["cell_number", "surface_number", "material_number", "transform_number",
-                      "surface_constant", "density", "importance", "volume", "title", "fraction",
-                      "tr_displacement", "universe_number", "material_assign"]
+    n = n if n is not None else rng.choice([1, 1, 2, 3, 5, 8, 13, 30])
+    kinds = kinds or KINDS
     prog = []
     used = {"cell": set(meta["cells"]), "surface": set(meta["surfaces"]), "material": set(meta["materials"]),
             "transform": set(meta["transforms"]), "universe": set(meta["universes"].values())}
@@ -67,8 +75,14 @@ def gen_program(rng, meta, n=None, kinds=None):
             prog.append({"kind": k, "value": rng.choice(["a new title", "Edited  title 2", "x"])})
         elif k == "fraction" and meta["materials"]:
             o = rng.choice(meta["materials"])
-            prog.append({"kind": k, "orig": o, "index": rng.randrange(4),
-                         "value": rng.choice([0.5, 0.25, 2.0, 1.0e-2, 0.75])})
+            zs = meta.get("material_zaids", {}).get(o)
+            if zs:
+                # the index-th ZAID/fraction pair of the card; a ZAID listed twice is one component in MontePy
+                # (which of the two fractions the API edits is not defined): not edited
+                idx = rng.randrange(len(zs))
+                if zs.count(zs[idx]) == 1:
+                    prog.append({"kind": k, "orig": o, "index": idx, "zaid": zs[idx],
+                                 "value": rng.choice([0.5, 0.25, 2.0, 1.0e-2, 0.75])})
         elif k == "tr_displacement" and meta["transforms"]:
             o = rng.choice(meta["transforms"])
             prog.append({"kind": k, "orig": o, "index": rng.randrange(3),
@@ -76,6 +90,25 @@ def gen_program(rng, meta, n=None, kinds=None):
         elif k == "material_assign" and len(meta["materials"]) >= 1:
             o = rng.choice(meta["cells"])
             prog.append({"kind": k, "orig": o, "material": rng.choice(meta["materials"])})
+        elif k == "cell_universe" and meta["universes"]:
+            # move a cell that is in a universe into another existing universe (addressed by original number)
+            o = rng.choice(sorted(meta["universes"]))
+            prog.append({"kind": k, "orig": o, "universe": rng.choice(sorted(set(meta["universes"].values())))})
+        elif k == "fill_universe" and meta["fills"] and meta["universes"]:
+            o = rng.choice(sorted(meta["fills"]))
+            prog.append({"kind": k, "orig": o, "universe": rng.choice(sorted(set(meta["universes"].values())))})
+        elif k == "lattice" and meta["fills"]:
+            o = rng.choice(sorted(meta["fills"]))
+            prog.append({"kind": k, "orig": o, "value": rng.choice([1, 2])})
+        elif k == "boundary":
+            o = rng.choice(meta["surfaces"])
+            prog.append({"kind": k, "orig": o, "value": rng.choice(["reflecting", "white", "none"])})
+        elif k == "thermal_law" and meta.get("material_laws"):
+            o = rng.choice(sorted(meta["material_laws"]))
+            prog.append({"kind": k, "orig": o, "laws": rng.choice([["grph.20t"], ["lwtr.10t", "poly.01t"], ["be.10t"]])})
+        elif k == "tr_degrees" and meta["transforms"]:
+            o = rng.choice(meta["transforms"])
+            prog.append({"kind": k, "orig": o, "value": rng.random() < 0.5})
     return prog
 
 
@@ -96,6 +129,16 @@ def apply(h, e):
     this problem (e.g. density of a void cell) are skipped, not errors."""
     k = e["kind"]
     pr = h.pr
+    table = {"cell": h.cells, "surface": h.surfaces, "material": h.materials, "transform": h.transforms}
+    own = {"cell_number": "cell", "density": "cell", "importance": "cell", "volume": "cell", "material_assign": "cell",
+           "cell_universe": "cell", "fill_universe": "cell", "lattice": "cell",
+           "surface_number": "surface", "surface_constant": "surface", "boundary": "surface",
+           "material_number": "material", "fraction": "material", "thermal_law": "material",
+           "transform_number": "transform", "tr_displacement": "transform", "tr_degrees": "transform"}
+    if k in own and e["orig"] not in table[own[k]]:
+        raise Inapplicable(f"{own[k]} {e['orig']}")
+    if k == "material_assign" and e["material"] not in h.materials:
+        raise Inapplicable(f"material {e['material']}")
     if k == "cell_number":
         c = h.cells[e["orig"]]
         old = c.number
@@ -155,10 +198,16 @@ def apply(h, e):
         return True, [("title", e["value"])]
     if k == "fraction":
         m = h.materials[e["orig"]]
-        comps = list(m.material_components.values())
-        if e["index"] >= len(comps):
-            return False, []
-        comps[e["index"]].fraction = e["value"]
+        if "zaid" in e:
+            comps = [c for iso, c in m.material_components.items() if iso.mcnp_str().lower() == e["zaid"].lower()]
+            if len(comps) != 1:
+                return False, []
+            comps[0].fraction = e["value"]
+        else:
+            comps = list(m.material_components.values())
+            if e["index"] >= len(comps) or len(comps) != len(m._tree["data"].nodes):
+                return False, []
+            comps[e["index"]].fraction = e["value"]
         return True, [("value", 2, m.number, ("fraction", e["index"]), e["value"])]
     if k == "tr_displacement":
         t = h.transforms[e["orig"]]
@@ -174,6 +223,49 @@ def apply(h, e):
         old = c.material.number
         c.material = m
         return True, [("value", 0, c.number, ("material",), m.number)]
+    if k in ("cell_universe", "fill_universe"):
+        c = h.cells[e["orig"]]
+        u = h.universes.get(e["universe"])
+        if u is None:
+            raise Inapplicable(f"universe {e['universe']}")
+        if k == "cell_universe":
+            if c.universe is None or c.universe.number == 0:
+                return False, []
+            c.universe = u
+        else:
+            if c.fill.universe is None:
+                return False, []
+            c.fill.universe = u
+        return True, [("value", 0, c.number, (k,), u.number)]
+    if k == "lattice":
+        import montepy
+        c = h.cells[e["orig"]]
+        if c.fill.universe is None:
+            return False, []
+        c.lattice = montepy.data_inputs.lattice.Lattice(e["value"])
+        return True, [("value", 0, c.number, ("lat",), e["value"])]
+    if k == "boundary":
+        s = h.surfaces[e["orig"]]
+        if e["value"] == "reflecting":
+            s.is_white_boundary = False
+            s.is_reflecting = True
+        elif e["value"] == "white":
+            s.is_reflecting = False
+            s.is_white_boundary = True
+        else:
+            s.is_reflecting = False
+            s.is_white_boundary = False
+        return True, [("value", 1, s.number, ("boundary",), e["value"])]
+    if k == "thermal_law":
+        m = h.materials[e["orig"]]
+        if m.thermal_scattering is None:
+            return False, []
+        m.thermal_scattering.thermal_scattering_laws = list(e["laws"])
+        return True, [("value", 2, m.number, ("law",), " ".join(e["laws"]))]
+    if k == "tr_degrees":
+        t = h.transforms[e["orig"]]
+        t.is_in_degrees = bool(e["value"])
+        return True, [("value", 2, t.number, ("degrees",), bool(e["value"]))]
     raise ValueError(k)
 
 
